@@ -283,14 +283,16 @@ inductive Op
   | reinstate (i : Nat)
   | age (i : Nat)
   | failPre (i : Nat) (k : Nat)   -- harness: the next k PreStart calls of child i fail
+  | restartPub (i : Nat)          -- the public `PID.Restart(ctx)` called on child i from outside
   deriving Repr
 
 def Op.idx : Op → Nat
-  | .fail i _ => i | .ping i => i | .reinstate i => i | .age i => i | .failPre i _ => i
+  | .fail i _ => i | .ping i => i | .reinstate i => i | .age i => i | .failPre i _ => i | .restartPub i => i
 
 /-- ops the refinement theorems cover (everything but scripted PreStart failures) -/
 def Op.plain : Op → Bool
   | .failPre _ _ => false
+  | .restartPub _ => false
   | _ => true
 
 inductive Res | ok | dead | err
@@ -321,6 +323,16 @@ def step (f : Family) (op : Op) : Family × Res × List Event :=
   | .failPre i k =>
     let c := f.cs.getD i Child.fresh
     (setChild f i { c with failNext := k }, .ok, [])
+  | .restartPub i =>
+    let c := f.cs.getD i Child.fresh
+    -- the harness only calls Restart on a child the system still resolves by name
+    if !c.reg then (f, .err, [])
+    else if c.failNext = 0 then
+      -- Restart -> restartSubtree of a leaf: as for a group member of a Restart directive, but no fault is recorded
+      (setChild f i (restartOne c).1, .ok, evIf (restartOne c).2 .st i ++ [(.sa, i), (.re, i)])
+    else
+      let (c1, ev, ok) := restartAttempt c
+      (setChild f i c1, if ok then .ok else .err, ev.map (fun k => (k, i)))
 
 /-- run a whole op script; returns every intermediate (family, result, events), oldest first -/
 def run (f : Family) : List Op → List (Family × Res × List Event)
